@@ -684,9 +684,14 @@ fn f_mut(report: &Report, config: Config, pairs: bool) {
     if config != Config::Empty && !pairs {
         let bad = corpus.iter().filter(|t| parser.parse(t).is_err()).count();
         report.extra("corpus_templates_not_parsing", json!(bad));
-        if bad * 10 > corpus.len() {
+        // the corpus entries are mutation *seeds*, not oracles (C01 does not claim acceptance): a tree that
+        // rejects some of them still gets its edits enumerated; only a corpus that is mostly unusable is a
+        // machinery failure
+        if bad * 2 > corpus.len() {
             eprintln!("harness self-test: {bad} of {} corpus templates do not parse", corpus.len());
             std::process::exit(2);
+        } else if bad * 10 > corpus.len() {
+            eprintln!("[C01] note: {bad} of {} mutation seeds do not parse on this tree (recorded in the evidence; enumeration continues)", corpus.len());
         }
     }
     // index space: (template, pos, kind) [x (pos2, kind2)]
